@@ -477,7 +477,7 @@ func balReload(body string) string {
 	for i := 0; i < len(body); i++ {
 		k := body[i]
 		n := i + 1
-		res := vh.SafeTimeout(5*time.Second, func() string {
+		res := vh.SafeTimeout(30*time.Second, func() string {
 			switch k {
 			case 'l':
 				if _, err := t.Lookup("cA"); err != nil {
@@ -590,7 +590,7 @@ func newModDrv(name string) *modDrv {
 			handle: func() string { return m.VerifC15Handle(modReq()) },
 		}
 	case "header":
-		m := mod_header.NewModuleHeader()
+		m := mod_header.VerifC15New()
 		val := func(r *bfe_basic.Request) string {
 			if v := r.HttpRequest.Header.Get("X-V"); v != "" {
 				return v
@@ -624,7 +624,7 @@ func newModDrv(name string) *modDrv {
 			},
 		}
 	case "trust": // mod_trust_clientip: version v trusts exactly 10.0.v.0/24
-		m := mod_trust_clientip.NewModuleTrustClientIP()
+		m := mod_trust_clientip.VerifC15New()
 		return &modDrv{
 			reloadPath: m.VerifC15Reload,
 			reload: func(v int) error {
@@ -646,7 +646,12 @@ func newModDrv(name string) *modDrv {
 		}
 	case "rewrite":
 		m := mod_rewrite.NewModuleReWrite()
-		strip := func(p string) string { return strings.TrimPrefix(p, "/") }
+		strip := func(p string) string {
+			if p = strings.TrimPrefix(p, "/"); p == "" {
+				return "-" // path untouched: no rewrite rule applied
+			}
+			return p
+		}
 		return &modDrv{
 			reloadPath: m.VerifC15Reload,
 			reload: func(v int) error {
@@ -696,6 +701,12 @@ func modRun(body string) string {
 			if err := d.reload(n); err != nil {
 				out = append(out, st+"=failed")
 			}
+		case 'E': // a reload whose data no longer has any entry for the product: later requests get no rule at all
+			if name == "geo" {
+				d.reload(n)
+			} else if err := d.reloadPath(modFile("empty.data", fmt.Sprintf(`{"Version":"e%d","Config":{}}`, n))); err != nil {
+				out = append(out, st+"=failed")
+			}
 		case 'B': // a reload with a broken data file: must be rejected and leave everything as it was
 			bad := modFile("broken.data", `{"Version":"x","Config":{"p":[{"Cond":`)
 			var err error
@@ -736,8 +747,12 @@ func modRun(body string) string {
 }
 
 func genMod(r *vh.Rand) string {
-	name := r.Pick("geo", "geo", "block", "redirect", "rewrite")
+	name := r.Pick("geo", "geo", "block", "redirect", "rewrite", "header", "tag", "trust")
+	split := name != "tag" && name != "trust"
 	nreq := r.Range(1, 3)
+	if !split {
+		nreq = 0
+	}
 	type rq struct{ script []string }
 	rs := make([]rq, nreq)
 	for i := range rs {
@@ -762,10 +777,17 @@ func genMod(r *vh.Rand) string {
 			break
 		}
 		if nrel > 0 && (len(live) == 0 || r.Chance(2, 5)) {
-			out = append(out, fmt.Sprintf("R%d", next))
-			next++
+			if r.Chance(1, 4) {
+				out = append(out, "B0") // a broken data file: rejected, nothing changes
+			} else if r.Chance(1, 6) {
+				out = append(out, fmt.Sprintf("E%d", next)) // the product's entries are removed
+				next++
+			} else {
+				out = append(out, fmt.Sprintf("R%d", next))
+				next++
+			}
 			nrel--
-			if r.Chance(1, 3) {
+			if r.Chance(1, 3) || !split {
 				out = append(out, "H")
 			}
 			continue
